@@ -226,6 +226,11 @@ Section HashModel.
   Definition newLog (gs : list table) : Z :=
     match gs with [] => logStart | t :: _ => tlog t + shift (bcount t) end.
 
+  (* Reserve / pvAddGrow: ++newLogBucketCount until the capacity suffices *)
+  Fixpoint reserve_log (fuel : nat) (nl n : Z) : option Z :=
+    if n <=? calcCapacity (2 ^ nl) then Some nl
+    else match fuel with O => None | S f => reserve_log f (nl + 1) n end.
+
   (* pvAdd (after pvFind said "absent") *)
   Definition hadd (s : hset) (kv : item) (bud : option nat) : option hset :=
     if count s <? capacity s then
@@ -237,13 +242,16 @@ Section HashModel.
                   end
       end
     else
-      let nl := newLog (gens s) in
-      let ncap := calcCapacity (2 ^ nl) in
-      if (ncap <=? count s) || (maxLog <? nl) then None          (* MOMO_CHECK(newCapacity > mCount) / length_error *)
-      else match tadd (newTable nl) kv with
-           | None => None
-           | Some t' => Some (mkH (relocate (t' :: gens s) bud) (count s + 1) ncap)
-           end.
+      (* pvAddGrow (since 7a001ad): while (CalcCapacity(1 << newLog) <= mCount) ++newLog;  then Buckets::Create (length_error) *)
+      match reserve_log 64 (newLog (gens s)) (count s + 1) with
+      | None => None
+      | Some nl =>
+        if maxLog <? nl then None
+        else match tadd (newTable nl) kv with
+             | None => None
+             | Some t' => Some (mkH (relocate (t' :: gens s) bud) (count s + 1) (calcCapacity (2 ^ nl)))
+             end
+      end.
 
   (* pvAdd when Buckets::Create throws bad_alloc: with buckets -> overload the existing newest table; without -> rethrow *)
   Definition hadd_nomem (s : hset) (kv : item) : option hset :=
@@ -257,10 +265,6 @@ Section HashModel.
          end.
 
   (* Reserve: ++newLogBucketCount until the capacity suffices *)
-  Fixpoint reserve_log (fuel : nat) (nl n : Z) : option Z :=
-    if n <=? calcCapacity (2 ^ nl) then Some nl
-    else match fuel with O => None | S f => reserve_log f (nl + 1) n end.
-
   Definition hreserve (s : hset) (n : Z) (bud : option nat) : option hset :=
     if n <=? capacity s then Some s
     else match reserve_log 64 (newLog (gens s)) n with
@@ -371,6 +375,71 @@ Section HashModel.
     match os with
     | [] => (s, [])
     | o :: r => match step s o with (s1, x) => match run s1 r with (s2, xs) => (s2, x :: xs) end end
+    end.
+
+  (* ---- HashSetConstIterator as a machine (HashSet.h:349-383) ----
+     state = (generation index = which mBuckets of the chain, bucket index, position of bucketIter inside Bounds); None = end.
+     pvInc : if (bucketIter != bounds.begin) --bucketIter; else pvMove();
+     pvMove: ++bucketIndex until a non-empty bucket (iterator = its last item); at the end of the table go to
+             mNextBuckets with ptReset(0, bounds(0).end) and pvInc again; no further generation -> end. *)
+  Definition iter : Type := option (nat * nat * nat).
+
+  Fixpoint scan (l : list bucket) (bi : nat) : option (nat * nat) :=
+    match l with
+    | [] => None
+    | b :: r => match items b with [] => scan r (S bi) | _ :: _ => Some (bi, Nat.pred (length (items b))) end
+    end.
+
+  Fixpoint first_in_gens (gs : list table) (gi : nat) : iter :=
+    match gs with
+    | [] => None
+    | t :: r => match scan (tbs t) 0 with Some (bi, p) => Some (gi, bi, p) | None => first_in_gens r (S gi) end
+    end.
+
+  Definition it_begin (s : hset) : iter := if count s =? 0 then None else first_in_gens (gens s) 0.
+
+  Definition it_get (s : hset) (it : iter) : option item :=
+    match it with
+    | None => None
+    | Some (gi, bi, p) =>
+      match nth_error (gens s) gi with
+      | None => None
+      | Some t => match nth_error (tbs t) bi with None => None | Some b => nth_error (items b) p end
+      end
+    end.
+
+  (* operator++ = pvInc on the current position *)
+  Definition it_next (s : hset) (it : iter) : iter :=
+    match it with
+    | None => None
+    | Some (gi, bi, S p) => Some (gi, bi, p)
+    | Some (gi, bi, O) =>
+      match nth_error (gens s) gi with
+      | None => None
+      | Some t => match scan (skipn (S bi) (tbs t)) (S bi) with
+                  | Some (bi', p') => Some (gi, bi', p')
+                  | None => first_in_gens (skipn (S gi) (gens s)) (S gi)
+                  end
+      end
+    end.
+
+  (* Remove(iter): Bucket::Remove moves the last item of the bucket into the hole and returns the same bucketIter;
+     the returned iterator is constructed from it with pvInc, i.e. it is operator++ evaluated in the NEW state *)
+  Definition it_remove (s : hset) (it : iter) : hset * iter :=
+    match it with
+    | None => (s, None)
+    | Some (gi, bi, p) =>
+      let s' := mkH (upd_gen (gens s) gi (fun t => tremove t (Z.of_nat bi) p)) (count s - 1) (capacity s) in
+      (s', it_next s' it)
+    end.
+
+  Fixpoint it_collect (fuel : nat) (s : hset) (it : iter) : list item :=
+    match fuel with
+    | O => []
+    | S f => match it_get s it with
+             | None => []
+             | Some x => x :: it_collect f s (it_next s it)
+             end
     end.
 
   (* ---- two containers + an extracted-item holder ---- *)
